@@ -457,3 +457,67 @@ def bytes_(local, sc, cfg, hev, wire):
                                         "what": f"label '{line}' -> {o} at {ev!r}",
                                         "case": {"scenario": sc.to_json(), "config": cfg.to_json()}})
             return
+
+
+def barrier_me(local, sc, cfg, hev, wire):
+    """C02 acceptor, multi-epoch: the WHOLE run (all barriers, overlapping epochs included) projected to the labels of
+    YgmVerif.BarrierME and replayed through its step, with the real operands / results of every MPI_Iallreduce."""
+    n = cfg.n
+    busy = [0] * n
+    open_cb, depth_at_cb, cbwin = [None] * n, [0] * n, {}
+    for i, ev in enumerate(hev):          # pass 1: what each callback window issues / registers at its own level
+        r, k = ev.r, ev.kind
+        if k == "k:ex+":
+            busy[r] += 1
+        elif k == "k:ex-":
+            busy[r] -= 1
+        elif k in ("k:as+", "k:qm") and open_cb[r] is not None and busy[r] == depth_at_cb[r]:
+            cbwin[open_cb[r]][0] += 1
+        elif k == "k:rcb" and open_cb[r] is not None and busy[r] == depth_at_cb[r]:
+            cbwin[open_cb[r]][1] += 1
+        elif k == "k:cb+":
+            open_cb[r], depth_at_cb[r] = i, busy[r]
+            cbwin[i] = [0, 0]
+        elif k == "k:cb-":
+            open_cb[r] = None
+    lines, origin = [f"init {n}"], [None]
+    busy = [0] * n
+    open_cb, depth_at_cb = [None] * n, [0] * n
+    for i, ev in enumerate(hev):
+        r, k = ev.r, ev.kind
+        lab = None
+        in_cb = open_cb[r] is not None and busy[r] == depth_at_cb[r]
+        if k in ("k:as+", "k:qm"):
+            lab = None if in_cb else f"issue {r}"
+        elif k == "k:ex+":
+            busy[r] += 1
+            lab = f"start {r}"
+        elif k == "k:ex-":
+            busy[r] -= 1
+            lab = f"finish {r}"
+        elif k == "k:rcb":
+            lab = None if in_cb else f"regcb {r}"
+        elif k == "k:cb+":
+            open_cb[r], depth_at_cb[r] = i, busy[r]
+            lab = f"runcb {r} {cbwin[i][0]} {cbwin[i][1]}"
+        elif k == "k:cb-":
+            open_cb[r] = None
+        elif k == "k:bar+":
+            lab = f"enter {r}"
+        elif k == "k:brc+":
+            lab = f"contribute {r} {ev.f[0]} {ev.f[1]}"
+        elif k == "k:brc-":
+            lab = f"result {r} {ev.f[0]} {ev.f[1]}"
+        elif k == "k:bar-":
+            lab = f"exit {r}"
+        if lab:
+            lines.append(lab)
+            origin.append(ev)
+    outs = C.model("barrierme", lines)
+    local.count("barrierme_labels", len(lines))
+    for line, o, ev in zip(lines, outs, origin):
+        if not o.startswith("ok"):
+            local.corr_failures.append({"relation": "whole multi-barrier history accepted by YgmVerif.BarrierME.step (C02 acceptor)",
+                                        "what": f"label '{line}' -> {o} at {ev!r}",
+                                        "case": {"scenario": sc.to_json(), "config": cfg.to_json()}})
+            return
